@@ -386,3 +386,47 @@ def c15_lock_coverage(prog):
     out.append(GroundOb("C15.AT1[single-io-thread]", n_threads == 1, f"{n_threads} thread creation sites target _handle_connections",
                         backend="atomicity-ast"))
     return out
+
+
+def c03_tables(prog):
+    """C03.T1-T5: well-formedness of every avp_def row of every command class and grouped container (exhaustive):
+    T1 the row has an AVP dictionary entry; T2 a row with a container class denotes a Grouped AVP (and only such rows);
+    T3 no two rows of a class denote the same (code, vendor); T4 no two rows share an attribute name;
+    T5 is_mandatory is bool/None and attr_name is an identifier that does not shadow a method."""
+    base, cmds, classes = _all_message_classes()
+    avp = real("diameter.message.avp.avp")
+    grouped = real("diameter.message.avp.grouped")
+    gen = real("diameter.message.avp.generator")
+    out = []
+    holders = [c for c in classes if getattr(c, "avp_def", None)]
+    holders += [c for c in vars(grouped).values() if isinstance(c, type) and getattr(c, "avp_def", None)]
+    seen = set()
+    for cls in holders:
+        if cls in seen:
+            continue
+        seen.add(cls)
+        rows = [r for r in cls.avp_def if isinstance(r, gen.AvpGenDef)]
+        keys, names = {}, {}
+        for r in rows:
+            oid = f"C03.T[{cls.__name__}.{r.attr_name}#{r.avp_code}.{r.vendor_id}]"
+            probs = []
+            e = avp.get_avp_dictionary_entry(r.avp_code, r.vendor_id)
+            if e is None:
+                probs.append(f"T1: no dictionary entry for ({r.avp_code}, {r.vendor_id})")
+            else:
+                is_grouped = issubclass(e["type"], avp.AvpGrouped)
+                if r.type_class is not None and not is_grouped:
+                    probs.append(f"T2: container class on a {e['type'].__name__} AVP")
+            k = (r.avp_code, r.vendor_id)
+            if k in keys:
+                probs.append(f"T3: same AVP as attribute {keys[k]!r}")
+            keys.setdefault(k, r.attr_name)
+            if r.attr_name in names:
+                probs.append("T4: attribute name declared twice")
+            names[r.attr_name] = True
+            if r.is_mandatory not in (None, True, False):
+                probs.append("T5: is_mandatory is not bool/None")
+            if not r.attr_name.isidentifier():
+                probs.append("T5: attr_name is not an identifier")
+            out.append(GroundOb(oid, not probs, "; ".join(probs), witness={"class": cls.__name__, "attr": r.attr_name}))
+    return out
